@@ -151,3 +151,28 @@ func Full(m proto.Message, tag string, listLen int) {
 		}
 	}
 }
+
+// EmptyMaps replaces every map field of m, at every nesting level, by an empty non-nil map
+// (the value class between nil and populated: sharing it is only visible through a key insertion).
+func EmptyMaps(m proto.Message) {
+	emptyMaps(m.ProtoReflect())
+}
+
+func emptyMaps(r protoreflect.Message) {
+	fds := r.Descriptor().Fields()
+	for i := 0; i < fds.Len(); i++ {
+		fd := fds.Get(i)
+		switch {
+		case fd.IsMap():
+			r.Clear(fd)
+			r.Mutable(fd).Map() // allocates an empty map
+		case fd.IsList() && fd.Kind() == protoreflect.MessageKind:
+			l := r.Get(fd).List()
+			for j := 0; j < l.Len(); j++ {
+				emptyMaps(l.Get(j).Message())
+			}
+		case fd.Kind() == protoreflect.MessageKind && r.Has(fd):
+			emptyMaps(r.Get(fd).Message())
+		}
+	}
+}
